@@ -287,13 +287,16 @@ def r1(ctx, r):
 def r2(ctx, r):
     f = dm(ctx, "decodeNameWithLoopDetection")
     jump = [e for e in f.stmts() if asg(e.node) and key_of(asg(e.node)[0]) == "offset" and key_of(asg(e.node)[1]) == "pointer"]
-    rng = [b for b in f.blocks.values() if b.cond is not None and common.cmp_parts(b.cond) and key_of(common.cmp_parts(b.cond)[1]) == "pointer" and key_of(common.cmp_parts(b.cond)[2]) == "size"]
+    def range_test(b):
+        co = common.cmp_oriented(b.cond, lambda x: key_of(x) == "size") if b.cond is not None else None
+        return co if co and key_of(co[1]) == "pointer" else None
+    rng = [b for b in f.blocks.values() if range_test(b)]
     vis = [b for b in f.blocks.values() if b.cond is not None and "visitedPointers.find(pointer)" in show(b.cond)]
     ins = [e for e in f.stmts() if e.node.get("k") == "mcall" and last(e.node.get("callee", "")) == "insert" and key_of(e.node.get("obj")) == "visitedPointers"]
     r.instance()
     ok = len(jump) == 1 and len(rng) == 1 and len(vis) == 1 and len(ins) == 1
     if ok:
-        op = common.cmp_parts(rng[0].cond)[0]
+        op = range_test(rng[0])[0]
         ok = op in (">=",) and dominated_by_edge(f, jump[0], rng[0], 1, eh=False)
         r.expect(ok, f, jump[0], "pointer range", "the jump to a compression pointer is not behind `pointer >= size → throw`: an out-of-range pointer is followed", okdesc="jump behind pointer < size")
         r.instance()
@@ -382,11 +385,13 @@ def r2(ctx, r):
     if ok:
         for e in dn:
             a1 = key_of(strip_views(e.node["args"][1]))
-            facts = [(show(c), t) for c, t in dominating_facts(g, e)]
-            if a1 == "pointer":
-                ok = ok and any("pointer" in c and "messageSize" in c and "<" in c and t for c, t in facts)
-            else:
-                ok = ok and any(a1 in c and "messageSize" in c and ">=" in c and not t for c, t in facts)
+            # `X < messageSize` known: as a true `<` fact or a false `>=` fact, whichever way round the test is written
+            inside = False
+            for c, t in dominating_facts(g, e):
+                co = common.cmp_oriented(c, lambda x: "messageSize" in show(x))
+                if co and a1 in show(co[1]) and ((co[0] == "<" and t) or (co[0] == ">=" and not t)):
+                    inside = True
+            ok = ok and inside
     r.expect(ok, g, None, "RDATA name start", "decodeNameFromRdata starts decoding at a position not tested against the message size", okdesc="both decodeName starts inside the message")
 
 
@@ -504,10 +509,13 @@ def r6(ctx, r):
     if not gets or not sets:
         raise AnalysisBroken("ExpiringCache::get/set instantiations not found")
     for g in gets:
-        eb = [b for b in g.blocks.values() if b.cond is not None and common.cmp_parts(b.cond) and "expiration" in show(common.cmp_parts(b.cond)[1]) and "now()" in show(common.cmp_parts(b.cond)[2])]
+        def fresh_test(b):
+            co = common.cmp_oriented(b.cond, lambda x: "now()" in show(x)) if b.cond is not None else None
+            return co if co and "expiration" in show(co[1]) else None
+        eb = [b for b in g.blocks.values() if fresh_test(b)]
         vals = [e for e in common.returns(g) if ".value" in show(e.node)]
         r.instance()
-        ok = len(eb) == 1 and len(vals) >= 1 and common.cmp_parts(eb[0].cond)[0] == ">" and all(dominated_by_edge(g, e, eb[0], 0, eh=False) for e in vals) and "steady_clock::now" in show(eb[0].cond)
+        ok = len(eb) == 1 and len(vals) >= 1 and fresh_test(eb[0])[0] == ">" and all(dominated_by_edge(g, e, eb[0], 0, eh=False) for e in vals) and "steady_clock::now" in show(eb[0].cond)
         r.expect(ok, g, vals[0] if vals else None, "expired entry served", "ExpiringCache::get returns a stored value on a path that did not establish `expiration > steady_clock::now()`", okdesc="value only on expiration > now()")
         rets = [e for e in common.returns(g) if e not in vals]
         r.instance()
